@@ -432,7 +432,7 @@ def plan_C15(q, seed):
     return {
         "jobs": [{"kind": "scale", "engine": "e1", "sizes": sizes, "stacks": stacks, "label": "scale-e1", "args": [], "lo": 0, "hi": 0, "seeds": [seed, seed + 1] if not q else [seed], "growth": growth},
                  {"kind": "scale", "engine": "e3", "sizes": [("ring", 24), ("chords", 24), ("selfmix", 30), ("clique", 8)], "stacks": [128], "label": "scale-e3", "args": [], "lo": 0, "hi": 0, "seeds": [seed]}],
-        "rule": "one orphanable group of N objects (ring, ring + N/2 random chords, clique, hub, ring whose members all adopt one shared leaf, ring with self-adoptions through a clone and through the same handle; 'aftermath': 400 two-object cycles before and after a large collection in the same process must cost the same; 'churn': 100 traces through the hub of a two-object cycle must cost the same before and after the hub adopted and unadopted N peers) is built by moving handles so that exactly one drop triggers exactly one trace, then collected on a thread with a 64/128 KiB stack in a child process; the child must complete, trace counters (H3) must satisfy generous linear bounds (expansions <= 2N, pops <= 2(N+E)+1, entries scanned <= 4E+2N; the current algorithm needs N, pairs+1 and 2*pairs), all N members destroyed, destructor nesting depth must stay 1; CPU time of the collecting thread must grow linearly between 4N and 16N (hub and chord shapes keep many objects pending at once; verdict only if the growth factor exceeds 3x linear AND the per-element cost exceeds 5 us, re-measured once). 'Any size' is restated as this bounded scaling experiment; wall time is recorded as evidence only. Distinct = distinct (shape, N, stack, seed)",
+        "rule": "one orphanable group of N objects (ring, ring + N/2 random chords, clique, hub, ring whose members all adopt one shared leaf, ring with self-adoptions through a clone and through the same handle; 'aftermath': 400 two-object cycles before and after a large collection in the same process must cost the same; 'churn': 100 traces through the hub of a two-object cycle must cost the same before and after the hub adopted and unadopted N peers) is built by moving handles so that exactly one drop triggers exactly one trace, then collected on a thread with a 64/128 KiB stack in a child process; the child must complete, trace counters (H3) must satisfy generous linear bounds (expansions <= 2N, pops <= 2(N+E)+1, entries scanned <= 4E+2N; the current algorithm needs N, pairs+1 and 2*pairs), all N members destroyed, destructor nesting depth must stay 1; CPU time of the collecting thread must grow linearly between 4N and 16N (hub and chord shapes keep many objects pending at once; verdict only if the growth factor exceeds 3x linear AND the cost per object-or-adoption exceeds 2 us, re-measured once). 'Any size' is restated as this bounded scaling experiment; wall time is recorded as evidence only. Distinct = distinct (shape, N, stack, seed)",
         "assumptions": ["bounded restatement of an unbounded claim: N up to 3*10^5 (clique: 600)", "hooks H3 count what the trace does; payload destructor measures nesting"],
     }
 
